@@ -197,6 +197,9 @@ def createNextState (env : Env) (s : State) (txs : List Tx) (rel : Relevant) (ti
       | some cd => coins.insertCoin id cd tip906
       | none => coins) coins) s.coins
   Outcome.foldlM' (fun (st : State) (tx : Tx) =>
+    -- a block holds a transaction at most once (`next_state.transactions.contains(hash)`, added by the `fix:`
+    -- for the double application of the grandfathered faucet transaction)
+    if st.txs.any (fun t => t.hash = tx.hash) then .reject .duplicateTx else
     (if tx.kind = .faucet then handleFaucetTx env st tx else .ok st).bind fun st1 =>
     (Outcome.foldlM' (fun (coins : CoinMap) id => coins.removeCoin id tip906) st1.coins tx.inputs).bind fun coins2 =>
     (tx.baseFee st1.feeMultiplier).bind fun minFee =>
